@@ -42,9 +42,9 @@ type vEnv struct {
 	faultsLeft int
 	faults     []vEvent
 	// resolution choices made so far: choice[node][point] = target indices (nil = not chosen yet)
-	chosen   [][3]bool
-	choice   [][3][]int
-	required [][3]bool
+	chosen   [][4]bool
+	choice   [][4][]int
+	required [][4]bool
 	points   int
 	badPoint bool // a required point whose only candidates are its own holder was chosen
 	// wrapping (C03)
@@ -54,13 +54,14 @@ type vEnv struct {
 	wrappers              []*vWrap
 	earlyServed           []int
 	populatedBeforeChecks bool
-	fixed                 [][3][]int // pre-drawn graph (C10: the same graph is started twice)
+	fixed                 [][4][]int // pre-drawn graph (C10: the same graph is started twice)
 	lookupMode            bool       // a component's Init may look another component up through the factory
 	lookupOf              []int      // per node: -2 not decided, -1 none, else target
 	lookupGot             []any
 	userProcFalse         bool // a user processor may answer false in PostProcessAfterInstantiation
 	replaceNode           int  // component replaced before instantiation (-1 = none)
 	replacement           *vWrap
+	initOK                []bool // the component's last creation attempt ran its Init to a successful end
 	regOrder              []int
 }
 
@@ -93,9 +94,10 @@ type vNode struct {
 	name string
 	idx  int
 	env  *vEnv
-	P0   any   `wire:""`
-	P1   any   `wire:""`
-	S0   []any `wire:""`
+	P0   any    `wire:""`
+	P1   any    `wire:""`
+	S0   []any  `wire:""`
+	T0   *vNode `wire:""` // a point declared with the concrete component type
 }
 
 func (v *vNode) Naming() string { return v.name }
@@ -111,6 +113,9 @@ func (v *vNode) Init() error {
 	e.ev(evInit, v.idx)
 	if e.fault(evInit, v.idx) {
 		return errBoom
+	}
+	if v.idx < len(e.initOK) {
+		e.initOK[v.idx] = true
 	}
 	if e.lookupMode && e.lookupOf[v.idx] == -2 {
 		// a factory-aware component: its Init looks another component up by name
@@ -155,6 +160,8 @@ func pointIndex(name string) int {
 		return 1
 	case "S0":
 		return 2
+	case "T0":
+		return 3
 	}
 	return -1
 }
@@ -187,11 +194,14 @@ func (p *vProc) PostProcessProperties(props []*component_definition.Property, c 
 		return nil, nil
 	}
 	e.ev(evConfig, v.idx)
+	if v.idx < len(e.initOK) {
+		e.initOK[v.idx] = false // a new creation attempt starts
+	}
 	if e.fault(evConfig, v.idx) {
 		return nil, errBoom
 	}
 	// iterate points in a fixed order (GetAllProperties ranges over a map)
-	for pt := 0; pt < 3; pt++ {
+	for pt := 0; pt < 4; pt++ {
 		for _, pr := range props {
 			if pointIndex(pr.StructField.Name) != pt || e.chosen[v.idx][pt] {
 				continue
@@ -200,7 +210,7 @@ func (p *vProc) PostProcessProperties(props []*component_definition.Property, c 
 			var tg []int
 			if e.fixed != nil {
 				tg = e.fixed[v.idx][pt]
-			} else if pt < 2 {
+			} else if pt != 2 {
 				// a required point always has a candidate here (the "no candidate" case is
 				// decided by the resolution processors, see the RH harness)
 				if e.required[v.idx][pt] {
@@ -214,6 +224,9 @@ func (p *vProc) PostProcessProperties(props []*component_definition.Property, c 
 						tg = append(tg, j)
 					}
 				}
+			}
+			if pt == 3 && len(tg) == 1 && e.lazy[tg[0]] {
+				tg = nil // a lazy component's object is not a *vNode
 			}
 			e.choice[v.idx][pt] = tg
 			onlySelf := len(tg) > 0
@@ -344,10 +357,11 @@ func newMC(n, points int, lazyMix bool, reqMode int, faults int) *vEnv {
 		postProcessorRegistrationDelegate: NewPostProcessorRegistrationDelegate(),
 		allowCircularReferences:           true,
 	}
-	e.chosen = make([][3]bool, n)
-	e.choice = make([][3][]int, n)
-	e.required = make([][3]bool, n)
+	e.chosen = make([][4]bool, n)
+	e.choice = make([][4][]int, n)
+	e.required = make([][4]bool, n)
 	e.lookupOf = make([]int, n)
+	e.initOK = make([]bool, n)
 	e.lookupGot = make([]any, n)
 	for i := range e.lookupOf {
 		e.lookupOf[i] = -2
@@ -394,8 +408,14 @@ func newMC(n, points int, lazyMix bool, reqMode int, faults int) *vEnv {
 }
 
 func (e *vEnv) fieldOf(h *vNode, pt int) any {
-	if pt == 0 {
+	switch pt {
+	case 0:
 		return h.P0
+	case 3:
+		if h.T0 == nil {
+			return nil
+		}
+		return h.T0
 	}
 	return h.P1
 }
@@ -635,7 +655,7 @@ func (e *vEnv) checkIdentityWrapped() {
 		nd.Assert(cnt == 1, "C01: the bulk lookup returns the published version of every component")
 	}
 	for hi, h := range e.nodes {
-		for pt := 0; pt < 2; pt++ {
+		for _, pt := range []int{0, 1, 3} {
 			tg := e.choice[hi][pt]
 			fld := e.fieldOf(h, pt)
 			if len(tg) == 1 && fld != nil {
@@ -773,6 +793,7 @@ func VerifC04B() {
 		nd.Assert(c != nil, "C04: a successful lookup returns a component")
 		// the instance handed out has completed its lifecycle: its last creation attempt ran to the end
 		nd.Assert(e.lastAt(evAfter, i) > e.lastAt(evConfig, i) && e.lastAt(evConfig, i) >= 0, "C04: a lookup never returns a half-built instance as if it had been created")
+		nd.Assert(e.initOK[i], "C04: an instance handed out as created has run its Init successfully in that creation attempt")
 		nd.Assert(!e.f.singletonComponentRegistry.IsSingletonCurrentlyInCreation(e.nodes[i].name), "C04: a published name is no longer reported as in creation")
 		c2, _ := e.f.GetComponentByName(e.nodes[i].name)
 		nd.Assert(c2 == c, "C04: once published, the same instance is returned")
@@ -787,7 +808,7 @@ func VerifC04B() {
 
 type vSnap struct {
 	ok     bool
-	fields [][3][]int // per node and point: for every held object (target index*4 + version), version 0 = raw, 1.. = wrapper generation+1
+	fields [][4][]int // per node and point: for every held object (target index*4 + version), version 0 = raw, 1.. = wrapper generation+1
 }
 
 func (e *vEnv) verOf(c any) int {
@@ -801,7 +822,7 @@ func (e *vEnv) verOf(c any) int {
 	return v.idx * 4
 }
 
-func vStartFixed(n, points int, graph [][3][]int, wrapNode int, wrapEarly, wrapAfter, same bool, order []int) vSnap {
+func vStartFixed(n, points int, graph [][4][]int, wrapNode int, wrapEarly, wrapAfter, same bool, order []int) vSnap {
 	e := &vEnv{n: n, points: points, wrapNode: wrapNode, wrapEarly: wrapEarly, wrapAfter: wrapAfter, sameWrapper: same, fixed: graph, replaceNode: -1}
 	e.f = &defaultFactory{
 		definitionRegistry:                support.DefaultDefinitionRegistry(),
@@ -809,9 +830,9 @@ func vStartFixed(n, points int, graph [][3][]int, wrapNode int, wrapEarly, wrapA
 		postProcessorRegistrationDelegate: NewPostProcessorRegistrationDelegate(),
 		allowCircularReferences:           true,
 	}
-	e.chosen = make([][3]bool, n)
-	e.choice = make([][3][]int, n)
-	e.required = make([][3]bool, n)
+	e.chosen = make([][4]bool, n)
+	e.choice = make([][4][]int, n)
+	e.required = make([][4]bool, n)
 	e.nodes = make([]*vNode, n)
 	e.raws = make([]any, n)
 	e.metas = make([]*component_definition.Meta, n)
@@ -837,7 +858,7 @@ func vStartFixed(n, points int, graph [][3][]int, wrapNode int, wrapEarly, wrapA
 	if !s.ok {
 		return s
 	}
-	s.fields = make([][3][]int, n)
+	s.fields = make([][4][]int, n)
 	for i, h := range e.nodes {
 		if h.P0 != nil {
 			s.fields[i][0] = []int{e.verOf(h.P0)}
@@ -855,7 +876,7 @@ func vStartFixed(n, points int, graph [][3][]int, wrapNode int, wrapEarly, wrapA
 func VerifC10MC() {
 	n := nd.Param("N", 2)
 	points := nd.Param("POINTS", 5)
-	graph := make([][3][]int, n)
+	graph := make([][4][]int, n)
 	for i := 0; i < n; i++ {
 		for pt := 0; pt < 3; pt++ {
 			if points&(1<<uint(pt)) == 0 {
@@ -913,4 +934,52 @@ func VerifC10MC() {
 			}
 		}
 	}
+}
+
+// C02 with a long cycle: a ring of RING components linked by single points (one path)
+func VerifC02Ring() {
+	n := nd.Param("RING", 70)
+	e := &vEnv{n: n, wrapNode: -1, replaceNode: -1}
+	e.f = &defaultFactory{
+		definitionRegistry:                support.DefaultDefinitionRegistry(),
+		singletonComponentRegistry:        support.DefaultSingletonComponentRegistry(),
+		postProcessorRegistrationDelegate: NewPostProcessorRegistrationDelegate(),
+		allowCircularReferences:           true,
+	}
+	e.chosen = make([][4]bool, n)
+	e.choice = make([][4][]int, n)
+	e.required = make([][4]bool, n)
+	e.lookupOf = make([]int, n)
+	e.lookupGot = make([]any, n)
+	e.initOK = make([]bool, n)
+	e.lazy = make([]bool, n)
+	e.fixed = make([][4][]int, n)
+	for i := 0; i < n; i++ {
+		e.lookupOf[i] = -1
+		name := "n" + string([]byte{byte('0' + i/10), byte('0' + i%10)})
+		node := &vNode{name: name, idx: i, env: e}
+		e.nodes = append(e.nodes, node)
+		e.raws = append(e.raws, node)
+		m := e.f.definitionRegistry.GetMetaOrRegister(name, node)
+		for _, fld := range m.Fields {
+			if fld.StructField.Name == "P0" {
+				m.SetProperties(component_definition.NewProperty(fld, component_definition.PropertyTypeComponent, "wire", ""))
+				e.required[i][0] = true
+			}
+		}
+		e.metas = append(e.metas, m)
+		e.fixed[i][0] = []int{(i + 1) % n}
+	}
+	e.f.postProcessorRegistrationDelegate.RegisterComponentPostProcessors(&vProc{env: e}, "vProc")
+	nd.Assert(e.f.postProcessorRegistrationDelegate.InvokeBeanFactoryPostProcessors(e.f, nil) == nil, "processor registration ok")
+	err := e.f.Refresh()
+	nd.Assert(err == nil, "C02: a cycle of any length resolves")
+	if err != nil {
+		return
+	}
+	for i, h := range e.nodes {
+		nd.Assert(h.P0 == any(e.nodes[(i+1)%n]), "C02: every required point of a long cycle holds its target")
+		nd.Assert(e.count(evInit, i) == 1, "C05: every component of a long cycle is initialised exactly once")
+	}
+	nd.Cover("long cycle resolved")
 }
